@@ -247,7 +247,22 @@ impl<'a, 'c, 'd> G<'a, 'c, 'd> {
                     }
                 }
                 let n = self.c.small(3);
-                Value::List((0..n).map(|_| self.value(item, false, vars, depth)).collect())
+                Value::List(
+                    (0..n)
+                        .map(|_| {
+                            let mut v = self.value(item, false, vars, depth);
+                            // inside a list literal an item of list type is written as a list (a
+                            // bare value there is read differently by the October 2021 table and
+                            // by its prose / graphql-js)
+                            if !matches!(v, Value::List(_) | Value::Null | Value::Var(_)) {
+                                for _ in 0..item.depth() {
+                                    v = Value::List(vec![v]);
+                                }
+                            }
+                            v
+                        })
+                        .collect(),
+                )
             }
             Type::Named(n) => self.named_value(n, vars, depth),
         }
